@@ -826,3 +826,5 @@ Section SimExpr.
   Qed.
 
 End SimExpr.
+
+Arguments post {value St err}.
